@@ -718,3 +718,26 @@ Example build_send_example :
                (mkParams 59913499992 false 5 1 4294967295 7 false 0) = Ok b
     /\ b_changes b = [1; 1; 1; 1; 1; 1; 7] /\ b_fee b = 86500000.
 Proof. eexists; split; [vm_compute; reflexivity|split; reflexivity]. Qed.
+
+(* ------------------------------------------------------------------ late lock: the fee fixed earlier *)
+(** when the late-locked finalize agrees to build, the selection needs exactly the fee fixed
+    at initiation — the fee in the kernel the counterparty signed — so the conservation
+    equation holds with THAT fee *)
+Theorem build_send_fixed_agreed os p fixed b :
+  build_send_fixed os p fixed = Ok b ->
+  build_send os p = Ok b /\ b_fee b = fixed
+  /\ sumN (values (b_inputs b)) = b_amount b + fixed + sumN (b_changes b).
+Proof.
+  unfold build_send_fixed. intros H. destruct (build_send os p) as [b0|e|q] eqn:E; cbn in H; try discriminate.
+  destruct (b_fee b0 =? fixed) eqn:Ef; inversion H; subst b0.
+  assert (Hf : b_fee b = fixed) by lia.
+  split; [reflexivity|]. split; [exact Hf|].
+  destruct (build_send_conserves _ _ _ E) as (_ & _ & Hsum & _). rewrite <- Hf. exact Hsum.
+Qed.
+
+Theorem build_send_fixed_refuses os p fixed b :
+  build_send os p = Ok b -> b_fee b <> fixed -> build_send_fixed os p fixed = Err EFee.
+Proof.
+  intros E Hne. unfold build_send_fixed. rewrite E. cbn.
+  destruct (b_fee b =? fixed) eqn:Ef; [lia|reflexivity].
+Qed.
